@@ -3,18 +3,54 @@ package main
 import (
 	"bufio"
 	"encoding/json"
+	"flag"
 	"fmt"
 	"os"
 	"time"
 
 	"verif/harness/ir"
+	"verif/harness/props"
+	"verif/harness/report"
 	"verif/harness/scratch"
 )
+
+// check <ID> -tier quick|thorough -seed N -out result.json
+func cmdCheck(args []string) {
+	fs := flag.NewFlagSet("check", flag.ExitOnError)
+	tier := fs.String("tier", "quick", "")
+	seed := fs.Int64("seed", 1, "")
+	out := fs.String("out", "", "")
+	id := args[0]
+	fs.Parse(args[1:])
+	f, ok := props.Registry[id]
+	if !ok {
+		fmt.Fprintln(os.Stderr, "no checker for", id)
+		os.Exit(2)
+	}
+	res := report.New(id, *tier, *seed)
+	if err := f(&props.Ctx{Res: res, Tier: *tier, Seed: *seed}); err != nil {
+		fmt.Fprintln(os.Stderr, "HARNESS ERROR:", err)
+		res.Note("harness error: " + err.Error())
+		if *out != "" {
+			res.Write(*out)
+		}
+		os.Exit(3)
+	}
+	if *out != "" {
+		if err := res.Write(*out); err != nil {
+			fmt.Fprintln(os.Stderr, err)
+			os.Exit(3)
+		}
+	}
+	fmt.Printf("%s: evaluations=%d distinct=%d corr_ok=%d corr_broken=%d violations=%d known=%d\n", id, res.Evaluations, res.Distinct, res.CorrOK, len(res.CorrBroken), len(res.Violations), len(res.Known))
+}
 
 func dispatch(cmd string, args []string) bool {
 	switch cmd {
 	case "try":
 		cmdTry(args)
+	case "check":
+		cmdCheck(args)
 	default:
 		return false
 	}
